@@ -2,7 +2,7 @@
 """Run the registered checks against each seeded breaking change under /verif/seeded/<name>/.
 For every change: apply patch.diff to /repo, confirm the baseline tests still pass (51), confirm the
 demo exits 1, run the quick check of the targeted property (and optionally others), undo the patch.
-Writes seeded/RESULTS.md.   usage: run_seeded.py [name ...] [--all-checks]"""
+Writes seeded/RESULTS.md.   usage: run_seeded.py [name ...] [--all-checks | --own-only]"""
 import json, os, subprocess, sys, time
 HERE = os.path.dirname(os.path.dirname(os.path.abspath(__file__)))
 SEEDED = os.path.join(HERE, "seeded")
@@ -32,7 +32,7 @@ def main():
             t = sh("cd /repo && /venv/bin/python -m pytest -q -p no:cacheprovider --timeout=900 --continue-on-collection-errors 2>&1 | tail -1")
             tests = t.stdout.strip()
             demo = sh("cd /tmp && /venv/bin/python %s" % os.path.join(d, "demo.py"), env=ENV)
-            targets = sorted(cmds) if all_checks else [meta["property"]] + meta.get("also_run", [])
+            targets = sorted(cmds) if all_checks else [meta["property"]] + ([] if "--own-only" in sys.argv else meta.get("also_run", []))
             caught = []
             for pid in targets:
                 t0 = time.time()
